@@ -286,6 +286,35 @@ pub(crate) fn validate_fragment_cycles(
     document: &ExecutableDocument,
     def: &Node<executable::Fragment>,
 ) {
+    /// Iterates over all fragment spreads in a selection set, including those nested in fields
+    /// and inline fragments, in document order.
+    ///
+    /// This uses an explicit stack, so that the call stack of `detect_fragment_cycles` only
+    /// grows with the number of fragments on a path (which is limited), not with the nesting
+    /// of fields and inline fragments inside each of those fragments.
+    fn nested_fragment_spreads(
+        selection_set: &executable::SelectionSet,
+    ) -> impl Iterator<Item = &Node<executable::FragmentSpread>> {
+        let mut stack = vec![selection_set.selections.iter()];
+        std::iter::from_fn(move || {
+            while let Some(selections) = stack.last_mut() {
+                match selections.next() {
+                    Some(executable::Selection::FragmentSpread(spread)) => return Some(spread),
+                    Some(executable::Selection::InlineFragment(inline)) => {
+                        stack.push(inline.selection_set.selections.iter())
+                    }
+                    Some(executable::Selection::Field(field)) => {
+                        stack.push(field.selection_set.selections.iter())
+                    }
+                    None => {
+                        stack.pop();
+                    }
+                }
+            }
+            None
+        })
+    }
+
     /// If a fragment spread is recursive, returns a vec containing the spread that refers back to
     /// the original fragment, and a trace of each fragment spread back to the original fragment.
     fn detect_fragment_cycles<'doc>(
@@ -294,38 +323,28 @@ pub(crate) fn validate_fragment_cycles(
         path_from_root: &mut RecursionGuard<'_>,
         seen: &mut HashSet<&'doc Name>,
     ) -> Result<(), CycleError<executable::FragmentSpread>> {
-        for selection in &selection_set.selections {
-            match selection {
-                executable::Selection::FragmentSpread(spread) => {
-                    if path_from_root.contains(&spread.fragment_name) {
-                        if path_from_root.first() == Some(&spread.fragment_name) {
-                            return Err(CycleError::Recursed(vec![spread.clone()]));
-                        }
-                        continue;
-                    }
+        for spread in nested_fragment_spreads(selection_set) {
+            if path_from_root.contains(&spread.fragment_name) {
+                if path_from_root.first() == Some(&spread.fragment_name) {
+                    return Err(CycleError::Recursed(vec![spread.clone()]));
+                }
+                continue;
+            }
 
-                    let new = seen.insert(&spread.fragment_name);
-                    if !new {
-                        // We already recursively traversed that fragment and didn’t find a cycle then
-                        continue;
-                    }
+            let new = seen.insert(&spread.fragment_name);
+            if !new {
+                // We already recursively traversed that fragment and didn’t find a cycle then
+                continue;
+            }
 
-                    if let Some(fragment) = document.fragments.get(&spread.fragment_name) {
-                        detect_fragment_cycles(
-                            document,
-                            &fragment.selection_set,
-                            &mut path_from_root.push(&fragment.name)?,
-                            seen,
-                        )
-                        .map_err(|error| error.trace(spread))?;
-                    }
-                }
-                executable::Selection::InlineFragment(inline) => {
-                    detect_fragment_cycles(document, &inline.selection_set, path_from_root, seen)?;
-                }
-                executable::Selection::Field(field) => {
-                    detect_fragment_cycles(document, &field.selection_set, path_from_root, seen)?;
-                }
+            if let Some(fragment) = document.fragments.get(&spread.fragment_name) {
+                detect_fragment_cycles(
+                    document,
+                    &fragment.selection_set,
+                    &mut path_from_root.push(&fragment.name)?,
+                    seen,
+                )
+                .map_err(|error| error.trace(spread))?;
             }
         }
 
